@@ -174,6 +174,25 @@ def g_array(rng):
     ty = ord(el[-1][0]) if el else 32
     return ["a:%d:%d" % (ty, len(el))] + el
 
+def g_run_at_end(rng):
+    """a compressible run that ends exactly at the end of an array (followed by a value that
+    would continue it) or exactly at the end of the list"""
+    k = rng.choice("ihc")
+    m = rng.choice([4, 5, 5, 6, 8])
+    if rng.random() < 0.5:
+        start, step = (rng.randint(48, 90), rng.choice([0, 1, 2])) if k == "c" else (rng.randint(-50, 50), rng.choice([0, 1, -1, 3]))
+    else:
+        start, step = (rng.randint(48, 90), 0) if k == "c" else (rng.randint(-50, 50), 0)
+    run = ["%s:%d" % (k, start + j * step) for j in range(m)]
+    nxt = "%s:%d" % (k, start + m * step)
+    q = rng.random()
+    pre = [g_scalar(rng, rng.choice("TNsr"))] if rng.random() < 0.4 else []
+    if q < 0.6:
+        follow = [nxt] if rng.random() < 0.8 else [g_scalar(rng, k)]
+        more = [g_scalar(rng, rng.choice("iTN"))] if rng.random() < 0.3 else []
+        return pre + ["a:%d:%d" % (ord(k), m)] + run + follow + more
+    return pre + run          # the run ends the list
+
 def gen_struct(rng, tier, dist, n):
     """lists with runs around the compression threshold, arrays, time tags, whole messages"""
     out = []
@@ -186,6 +205,8 @@ def gen_struct(rng, tier, dist, n):
         vals = []
         kind = rng.random()
         parts = rng.choice([1, 1, 2, 3, 4])
+        if rng.random() < 0.12:
+            vals = g_run_at_end(rng); parts = 0; compress = 1; bump("run-at-end")
         for _p in range(parts):
             q = rng.random()
             if q < 0.35:
